@@ -423,15 +423,19 @@ func (s *State) diffIOSACLs(al, bl []*cmd, diff []edit.Range) {
 	// Generate move command which sends add and delete command together
 	// as a single command.
 	// Ignore move if both positions belong to the same block.
-	moveACL := func(a *cmdAndPos, b *cmd, before, i int, moveOK bool) {
+	// lowOK: No line with different action is inserted between previous
+	// block and this line.
+	// highOK: No line with different action is inserted between this
+	// line and next block.
+	moveACL := func(a *cmdAndPos, b *cmd, before, i int, lowOK, highOK bool) {
 		defer func() { a.cmd = nil }()
 		// Must not ignore move if 'log' attribute has changed.
-		if moveOK && a.cmd.parsed == b.parsed {
+		if a.cmd.parsed == b.parsed {
 			oldID := idx2Block[a.pos]
-			if before > 0 && idx2Block[before-1] == oldID {
+			if lowOK && before > 0 && idx2Block[before-1] == oldID {
 				return
 			}
-			if before < len(idx2Block) && idx2Block[before] == oldID {
+			if highOK && before < len(idx2Block) && idx2Block[before] == oldID {
 				return
 			}
 		}
@@ -516,14 +520,21 @@ func (s *State) diffIOSACLs(al, bl []*cmd, diff []edit.Range) {
 			if r.HighB-r.LowB >= 10000 {
 				errlog.Abort("Can't insert more than 9999 ACL lines at once")
 			}
-			action0 := getIOSAction(bl[r.LowB])
-			moveOK := true
-			for i, b := range bl[r.LowB:r.HighB] {
-				moveOK = moveOK && action0 == getIOSAction(b)
+			l := bl[r.LowB:r.HighB]
+			// highOK[i]: lines i..end all have same action.
+			highOK := make([]bool, len(l))
+			for i := len(l) - 1; i >= 0; i-- {
+				highOK[i] = i == len(l)-1 ||
+					highOK[i+1] && getIOSAction(l[i]) == getIOSAction(l[i+1])
+			}
+			action0 := getIOSAction(l[0])
+			lowOK := true
+			for i, b := range l {
+				lowOK = lowOK && action0 == getIOSAction(b)
 				p := s.printNetspocCmd(b)
 				p = stripLogRX.ReplaceAllLiteralString(p, "")
 				if cmdPos, found := delMap[p]; found {
-					moveACL(cmdPos, b, r.LowA, i, moveOK)
+					moveACL(cmdPos, b, r.LowA, i, lowOK, highOK[i])
 				} else {
 					addACL(b, r.LowA, i)
 				}
